@@ -188,6 +188,9 @@ structure LogEv where
   triggerValue : String
 deriving DecidableEq, Repr
 
+/-- `(*big.Int).Cmp`: −1, 0, +1 -/
+def bigCmp (a b : Int) : Int := if a < b then -1 else if a = b then 0 else 1
+
 /-- `logTriggersUpkeep` -/
 def logTriggersUpkeep (l : LogEv) (u : Upkeep) : Bool :=
   if decide (l.triggerAt ≥ u.createInBlock) && (l.triggerValue == u.triggeredBy) then
@@ -465,6 +468,11 @@ def decode : J → Except DecErr Plan
                 configEvents := acc.cfg, generateUpkeeps := acc.gen, logEvents := acc.log }
     | _, _, _, _ => .error .header
   | _ => .error .notObject
+
+/-- `saveSimulationPlanToOutput`: `os.OpenFile(name, O_RDWR|O_CREATE|O_TRUNC)` then `Write(new)` — what the file
+holds afterwards, given what it held before.  Without `O_TRUNC` the tail of a longer old content survives. -/
+def writeFile {α} (trunc : Bool) (old new : List α) : List α :=
+  if trunc then new else new ++ old.drop new.length
 
 /-- what a load of a saved plan is expected to give: event types set, `expected` defaulted -/
 def normalize (p : Plan) : Plan :=
